@@ -848,5 +848,8 @@ PROPS["C10"]["explanation"] += " (CRDSCAN) a scan for a dimension's coordinate v
 PROPS["C14"]["rules"] = PROPS["C14"]["rules"] + [rules_access.rule_delete_checks_access_first]
 PROPS["C14"]["explanation"] += " (DELACC) a routine that removes an instance from the in-memory table and deletes its descriptors tests the file's write access first."
 
+PROPS["C10"]["rules"] = PROPS["C10"]["rules"] + [rules_sd.rule_generated_name_whole]
+PROPS["C10"]["explanation"] += " (GENNAME) a dimension name is taken for a generated fakeDim<N> only on a test of the whole name."
+
 NOT_APPLICABLE = {}
 
